@@ -10,6 +10,26 @@ NOT_APPLICABLE = {
 
 # id -> (engine, level category, level text, level note, technique, design_ref)
 CHECKS = {
+    "C13": ("DES", "exploration",
+            "Discrete-event simulation of the real ProcessorStream / Buffer / ComposedProcessors / Pipeline layers over cancel-safe FIFO stub stages with seeded latencies and drop guards: 1-20 inputs with seeded arrival gaps, 1-3 stages stacked or composed, seeded consumer polling and task schedule; every input must yield exactly one output (Ok through all stages, or its error), Ok outputs in input order, all within 60 simulated seconds after the stream goes quiet.",
+            "Processors are stubs so that every loss is attributable to the layers (the real Ingest / LogPrune / Orderer processors are exercised by C01-C05, C11, C12). Errors may overtake earlier Ok items (not constrained by the property).",
+            "deterministic simulation: seeded latencies and schedules make Buffer's select! cancel next() at every await point", "§4 C13"),
+    "C18": ("World", "exploration",
+            "World simulation with the wall-clock seam: chains of HybridTimestamp::increment and of self-published transport records (increment_timestamp + sign, as discovery does) under clock readings that tick, freeze, jump forward, jump back or return exactly to an earlier reading; every increment must be strictly greater than its input and every successive record must be accepted as newer by an in-order remote NodeInfo.",
+            "Wall clock through the interposed CLOCK_REALTIME (asserted at the start of each run). Not explored: logical counter at u64::MAX, clock before 1970.",
+            "deterministic simulation with fault injection: clock skew and jumps", "§4 C18"),
+    "C26": ("DES", "exploration",
+            "Discrete-event simulation of the real Codec behind FramedWrite / FramedRead over a simulated byte pipe with seeded chunk sizes, Pending insertions, short writes, bounded buffer and EOF at byte k; messages of boundary sizes, real operations and every TopicLogSyncMessage variant, max_frame_len at len-1 / len / len+1 and hand-built oversized frames; decoded sequence must equal the encoded one, oversized frames are rejected on both sides and no smaller frame is, a truncated stream never yields a wrong message, no hang.",
+            "Frame boundaries of the oracle come from an independent postcard encoding of each message.",
+            "deterministic simulation with fault injection: arbitrary chunking, short writes, truncation of a simulated byte stream", "§4 C26"),
+    "C27": ("StepExec", "exploration",
+            "Sequential simulation of the real AddressBook actor over in-memory SQLite: per node, authentic, forged, tampered, mismatched and trusted records with distinct and equal timestamps delivered in seeded order with duplicates; a last-write-wins register model predicts the stored record and the returned flag after every delivery; inauthentic records must fail and leave the book unchanged.",
+            "One request in flight at a time (the actor is awaited). Trusted: SQLite, ractor.",
+            "deterministic simulation with fault injection: reordered / duplicated / forged transport records against an LWW model", "§4 C27"),
+    "C28": ("World", "exploration",
+            "World simulation with a mock monotonic clock (hook H5): seeds x default and generated configurations x sequences of increment / reset / clock advance (steady and jumps around the drawn reset interval); after every call initial <= value <= max, and an increment that finds the reset interval elapsed leaves value == initial.",
+            "Needs hook H5 (Backoff reads mock_instant under the guard; hidden re-export). Config values with empty ranges are out of scope (no public constructor).",
+            "deterministic simulation: mock clock jumps against interval bounds", "§4 C28"),
     "C35": ("World", "exploration",
             "Network-world simulation of 3-6 participants with real key managers, registries, EncryptionGroup / DCGKA / 2SM / SecretBundle and the crate's MessageOrderer: histories of create / add / remove / update / data with concurrency, delivered by a harness causal broadcast with reordering inside the causal constraints, duplicates and partitions that heal; at quiescence every current member must hold and report the same latest secret and decrypt every other member's data, and no removed member may hold a secret generated after its removal was applied.",
             "Causal delivery is provided by the harness (as the stack above the crate must); the group-membership CRDT is a two-phase set stub (SimDgm) because the crate's TestDgm never welcomes an added member. HPKE inside hpke-rs draws OS randomness; no outcome depends on ciphertext bytes.",
@@ -100,7 +120,7 @@ def main():
     hooks_commits = []
     try:
         out = subprocess.run(["git", "-C", "/repo", "log", "--format=%H %s"], capture_output=True, text=True).stdout
-        hooks_commits = [l.split()[0] for l in out.splitlines() if " verif hook" in l or l.split(" ", 1)[1].startswith("verif:")]
+        hooks_commits = [l.split()[0] for l in out.splitlines() if l.split(" ", 1)[1].startswith("verif hook")]
     except Exception:
         pass
     m = {
@@ -112,7 +132,7 @@ def main():
             "enable": "RUSTFLAGS=\"--cfg p2panda_p2panda_verif --cfg tokio_unstable\" (set in /verif/sim/.cargo/config.toml)",
             "baseline_off_cmd": "cd /repo && cargo nextest run --workspace --no-fail-fast --test-threads 8 --offline || cargo test --workspace --no-fail-fast --offline",
             "source_commits": hooks_commits,
-            "add_only": True,
+            "add_only": False,
         },
         "engines": [
             {"name": "StepExec", "path": "sim/simcore/src/stepexec.rs", "kind_free_text": "single-poller seam-to-seam executor over real SQLite on a real-time tokio current-thread runtime", "serves_properties": [p for p in CHECKS if "StepExec" in CHECKS[p][0]]},
